@@ -24,10 +24,6 @@ T=$(cargo test --workspace --no-fail-fast --offline 2>&1 | grep -E "^test result
 PASSED=$(echo "$T" | sed -n 's/.* \([0-9]*\) passed.*/\1/p' | paste -sd+ | bc)
 FAILED=$(echo "$T" | sed -n 's/.* \([0-9]*\) failed.*/\1/p' | paste -sd+ | bc)
 git checkout -q -- .
-python3 - "$SD" "$PASSED" "$FAILED" <<EOF
-import json,sys
-clean='''$(echo "$CLEAN" | sed "s/'''/'' '/g" | sed 's/\\/\\\\/g')'''
-patched='''$(echo "$PATCHED" | sed "s/'''/'' '/g" | sed 's/\\/\\\\/g')'''
-json.dump({"applies": True, "head": "$(git -C /repo rev-parse --short HEAD)", "demo_differs": clean!=patched, "demo_clean": clean[:1500], "demo_patched": patched[:1500], "tests_passed": int(sys.argv[2] or 0), "tests_failed": int(sys.argv[3] or 0)}, open(sys.argv[1]+'/confirm.json','w'), indent=1)
-print(sys.argv[1], "differs=", clean!=patched, "passed=", sys.argv[2], "failed=", sys.argv[3])
-EOF
+printf '%s' "$CLEAN" > $SD/.clean.out; printf '%s' "$PATCHED" > $SD/.patched.out
+python3 /verif/tools/confirm_json.py "$SD" "$PASSED" "$FAILED" "$(git -C /repo rev-parse --short HEAD)"
+rm -f $SD/.clean.out $SD/.patched.out
